@@ -81,6 +81,7 @@ extern "C" void gr_verif_event(const char *op, const void *segp, const void *a, 
     else if (o == "linkclusters") snprintf(t, sizeof t, "lc;");
     else if (o == "passend") { g_events += "P" + snapshot((const Segment *)segp) + ";"; return; }
     else if (o == "linebreak") snprintf(t, sizeof t, "lb%d;", slot_id(a));
+    else if (o == "setends") snprintf(t, sizeof t, "se%d,%d;", slot_id(a), slot_id(b));
     g_events += t;
 }
 
@@ -244,7 +245,9 @@ static std::string dump(gr_segment *seg, const gr_face *face, const gr_font *fon
         for (size_t i = 0; i < w.s.size(); i++) if (gr_slot_gid(w.s[i]) >= ng) { wf = "gid-out-of-range@" + std::to_string(i); break; }
     }
     snprintf(t, sizeof t, "n=%u nc=%u adv=%s,%s WF=", n, nc, fnum(gr_seg_advance_X(seg)).c_str(), fnum(gr_seg_advance_Y(seg)).c_str());
-    out += t; out += wf; out += " S";
+    out += t; out += wf;
+    snprintf(t, sizeof t, " fdir=%d", (int)(static_cast<const graphite2::Segment *>(seg)->silf()->dir() & 1)); out += t;
+    out += " S";
     for (size_t i = 0; i < w.s.size(); i++) {
         const gr_slot *p = w.s[i];
         snprintf(t, sizeof t, " %u,%u,%d,%d,%d,%d,%d,%d,%s,%s,%s,%s", gr_slot_gid(p), gr_slot_index(p), gr_slot_before(p), gr_slot_after(p), gr_slot_original(p),
@@ -275,6 +278,22 @@ template <typename U> static void *mkbuf(const std::vector<uint32_t> &u) {
 }
 
 struct Line { std::vector<const gr_slot *> s; };
+
+// snapshot of all lines (chains from the recorded line heads) plus the segment's first/last, for the C19 correspondence
+static std::string line_snapshot(gr_segment *seg, const std::vector<Line> &lines) {
+    std::string out = "L[";
+    for (size_t l = 0; l < lines.size(); l++) {
+        if (l) out += "|";
+        if (lines[l].s.empty()) continue;
+        size_t steps = 0; bool first = true;
+        for (const gr_slot *p = lines[l].s[0]; p; p = gr_slot_next_in_segment(p)) {
+            if (++steps > 4096) { out += "...CYCLE"; break; }
+            out += (first ? "" : ",") + std::to_string(slot_id(p)); first = false;
+        }
+    }
+    out += "]" + std::to_string(slot_id(gr_seg_first_slot(seg))) + "," + std::to_string(slot_id(gr_seg_last_slot(seg))) + ";";
+    return out;
+}
 
 int main(int argc, char **argv) {
     repo = argc > 1 ? argv[1] : "/repo";
@@ -319,9 +338,17 @@ int main(int argc, char **argv) {
             // lines: initially one
             std::vector<Line> lines(1);
             { Walk w; walk_from(gr_seg_first_slot(seg), 2 * (size_t)gr_seg_n_slots(seg) + 8, w); lines[0].s = w.s; }
+            bool jtrace = false;
+            for (size_t k = 10; k < f.size(); k++) if (f[k] == "jtrace") jtrace = true;
+            std::string jev;
+            if (jtrace) {          // ids in stream order, so that the line model can be initialised from the first snapshot
+                g_ids.clear();
+                for (size_t i = 0; i < lines[0].s.size(); i++) slot_id(lines[0].s[i]);
+                jev = line_snapshot(seg, lines);
+            }
             for (size_t k = 10; k < f.size(); k++) {
                 const std::string &op = f[k];
-                if (op == "dump" || op == "nchars+" || op == "-") continue;
+                if (op == "dump" || op == "nchars+" || op == "-" || op == "jtrace") continue;
                 if (op == "trace") {
                     const graphite2::Segment *gs = static_cast<const graphite2::Segment *>(seg);
                     std::string cin = "{";
@@ -343,10 +370,13 @@ int main(int argc, char **argv) {
                     for (; li < lines.size(); li++) { if (p < acc + lines[li].s.size()) break; acc += lines[li].s.size(); }
                     if (li >= lines.size() || p == acc) { out += " | break skip"; continue; }     // already a line start
                     size_t off = p - acc;
+                    g_events.clear(); g_trace = jtrace;
                     gr_slot_linebreak_before(const_cast<gr_slot *>(lines[li].s[off]));
+                    g_trace = false;
                     Line tail; tail.s.assign(lines[li].s.begin() + off, lines[li].s.end());
                     lines[li].s.resize(off);
                     lines.insert(lines.begin() + li + 1, tail);
+                    if (jtrace) jev += g_events + line_snapshot(seg, lines);
                     out += " | break ok";
                 } else if (op.compare(0, 5, "just:") == 0) {
                     std::vector<std::string> a; { std::istringstream is(op.substr(5)); std::string x; while (std::getline(is, x, ':')) a.push_back(x); }
@@ -356,7 +386,10 @@ int main(int argc, char **argv) {
                     const gr_slot *pf = (a.size() > 3 && a[3] != "-") ? lines[li].s[std::min((size_t)atoi(a[3].c_str()), lines[li].s.size() - 1)] : 0;
                     const gr_slot *pl = (a.size() > 4 && a[4] != "-") ? lines[li].s[std::min((size_t)atoi(a[4].c_str()), lines[li].s.size() - 1)] : 0;
                     std::vector<unsigned> gids; for (size_t i = 0; i < lines[li].s.size(); i++) gids.push_back(gr_slot_gid(lines[li].s[i]));
+                    g_events.clear(); g_trace = jtrace;
                     float r = gr_seg_justify(seg, lines[li].s[0], font, width, (gr_justFlags)flags, pf, pl);
+                    g_trace = false;
+                    if (jtrace) jev += "j" + std::to_string(li) + ";" + g_events + line_snapshot(seg, lines);
                     // every line must still be a well-formed chain with the same slots in the same order
                     std::string verdict = "ok";
                     for (size_t l2 = 0; l2 < lines.size() && verdict == "ok"; l2++) {
@@ -375,6 +408,7 @@ int main(int argc, char **argv) {
                     out += " | just " + verdict + " " + gsame + " w=" + fnum(r);
                 } else out += " | ?";
             }
+            if (jtrace) out += " | J " + jev;
             gr_seg_destroy(seg);
         }
         free(buf);
